@@ -483,12 +483,19 @@ class C04(PropertyCheck):
         if r < 0.52:
             op = rng.choice(OPS)
             v1, v2 = self._value_pair(rng, op)
+            # aliasing (both operands are one object).  A NaN *scalar* is still unequal to itself
+            # (float/Decimal/complex __eq__ has no identity shortcut); only containers short-cut on
+            # identity of their elements, which the model does not express -> excluded.
+            scalar_nan = (isinstance(v1, dict) and next(iter(v1)) in ("float", "complex", "dec"))
             same = (op in ("is", "isnot", "eq", "ne", "le", "lt") and rng.random() < 0.25
-                    and not has_nan(v1))
+                    and (not has_nan(v1) or scalar_nan))
             return {"kind": "cmp", "op": op, "v1": v1, "v2": v1 if same else v2, "alias": same}
         if r < 0.82:
             op = rng.choice(OPS)
             v1, v2 = self._abs_pair(rng, op)
+            # one user object compared with itself: `a == a` still calls __eq__ (no identity shortcut)
+            if (isinstance(v1, dict) and "obj" in v1 and op not in ("in", "notin") and rng.random() < 0.2):
+                return {"kind": "abs", "op": op, "v1": v1, "v2": v1, "alias": True}
             return {"kind": "abs", "op": op, "v1": v1, "v2": v2}
         if r < 0.88:
             v = self._scalar(rng) if rng.random() < 0.7 else self._list(rng)
